@@ -30,12 +30,14 @@ ASSUMPTIONS = [
 ]
 BUDGET = {"quick": (16, 500), "thorough": (16, 10000)}
 OPN = 16
+WEIGHTED = [0, 1, 1, 1, 2, 2, 2, 3, 4, 4, 4, 5, 6, 6, 7, 8, 9, 10, 11, 11, 12, 13, 14, 14, 15]
 
 
 def strategy(tier, phase):
     from hypothesis import strategies as st
 
-    op = st.tuples(st.integers(0, OPN - 1), st.integers(0, 30), st.integers(0, 30), st.integers(0, 30), st.integers(0, 30)).map(list)
+    # op kinds are drawn through a weighting table (annotation requests are what everything else reacts to)
+    op = st.tuples(st.integers(0, len(WEIGHTED) - 1).map(lambda i: WEIGHTED[i]), st.integers(0, 30), st.integers(0, 30), st.integers(0, 30), st.integers(0, 30)).map(list)
     return st.fixed_dictionaries({"irv": st.sampled_from([11, 12, 13]), "ops": st.sampled_from([6, 12, 25]).flatmap(lambda n: st.lists(op, min_size=n // 2, max_size=n))})
 
 
@@ -58,7 +60,19 @@ def build(irv):
     n3 = ir.Node("", "Relu", [n0.outputs[0]], num_outputs=1, name="n3")  # t0 shared by n1 and n3
     n3.outputs[0].name = "t3"
     n3.outputs[0].shape = ir.Shape([2, 3, 4])
-    g = ir.Graph([a, b], [n2.outputs[0], n3.outputs[0]], nodes=[n0, n1, n2, n3], initializers=[w], name="g", opset_imports={"": 20})
+    # control flow: nodes inside the branches use values captured from the enclosing graph (t0, a, t1) and a local one
+    cond = ir.Value(name="cond", type=ir.TensorType(ir.DataType.BOOL), shape=ir.Shape([]))
+    i0 = ir.Node("", "Relu", [n0.outputs[0]], num_outputs=1, name="then_relu")
+    i0.outputs[0].name, i0.outputs[0].type, i0.outputs[0].shape = "ti0", F, ir.Shape([2, 3, 4])
+    i1 = ir.Node("", "Add", [i0.outputs[0], a], num_outputs=1, name="then_add")
+    i1.outputs[0].name, i1.outputs[0].type, i1.outputs[0].shape = "ti1", F, ir.Shape([2, 3, 4])
+    then_g = ir.Graph([], [i1.outputs[0]], nodes=[i0, i1], name="then_g")
+    e0 = ir.Node("", "Neg", [n1.outputs[0]], num_outputs=1, name="else_neg")
+    e0.outputs[0].name, e0.outputs[0].type = "te0", F
+    else_g = ir.Graph([], [e0.outputs[0]], nodes=[e0], name="else_g")
+    n4 = ir.Node("", "If", [cond], [ir.AttrGraph("then_branch", then_g), ir.AttrGraph("else_branch", else_g)], num_outputs=1, name="n4")
+    n4.outputs[0].name = "t4"
+    g = ir.Graph([a, b, cond], [n2.outputs[0], n3.outputs[0], n4.outputs[0]], nodes=[n0, n1, n2, n3, n4], initializers=[w], name="g", opset_imports={"": 20})
     return ir.Model(g, ir_version=irv)
 
 
@@ -66,13 +80,14 @@ class State:
     def __init__(self, irv):
         self.model = build(irv)
         self.model.add_device_configuration("cfg0", num_devices=2, device_names=("d0", "d1"))
+        self.model.add_device_configuration("cfg1", num_devices=3)
         self.fails = []
         self.annotated = False
         self.affected = False
         self.n_names = 0
 
     def nodes(self):
-        return list(self.model.graph)
+        return list(self.model.graph.all_nodes())  # incl. the nodes inside the If branches
 
     def fail(self, bucket, msg):
         if len(self.fails) < 3:
@@ -110,7 +125,7 @@ def check_state(st, tag):
     except Exception as e:
         st.fail(f"to_proto-raised/{type(e).__name__}", f"after {tag}: to_proto raised {type(e).__name__}: {e}"[:300])
         return
-    for n, np_ in zip(m.graph, p.graph.node):
+    for n, np_ in _node_pairs(m.graph, p.graph):
         dcs = list(n.device_configurations or ())
         if len(dcs) != len(np_.device_configurations):
             st.fail("serialized-configuration-count", f"after {tag}: node {n.name} has {len(dcs)} configurations, proto has {len(np_.device_configurations)}")
@@ -121,6 +136,25 @@ def check_state(st, tag):
             names = [s.value.name for s in dc.sharding_specs if s.value is not None]
             if [s.tensor_name for s in dp.sharding_spec] != names:
                 st.fail("serialized-tensor-name", f"after {tag}: proto tensor names {[s.tensor_name for s in dp.sharding_spec]} != current names {names}")
+
+
+def _node_pairs(graph, graph_proto):
+    """(IR node, NodeProto) pairs of a graph and of the graphs nested in it, in order."""
+    import onnx_ir as ir
+
+    for n, np_ in zip(graph, graph_proto.node):
+        yield n, np_
+        for name, attr in n.attributes.items():
+            if attr.is_ref():
+                continue
+            ap = [x for x in np_.attribute if x.name == name]
+            if not ap:
+                continue
+            if attr.type == ir.AttributeType.GRAPH:
+                yield from _node_pairs(attr.value, ap[0].g)
+            elif attr.type == ir.AttributeType.GRAPHS:
+                for sg, sp in zip(attr.value, ap[0].graphs):
+                    yield from _node_pairs(sg, sp)
 
 
 def run_op(st, op):
@@ -151,6 +185,8 @@ def run_op(st, op):
         cfg = cfgs[b % len(cfgs)]
         v = ios[c % len(ios)]
         r = rank_of(v)
+        if r == 0:
+            return "noop"  # a scalar has no axis to shard
         axis = (d % (2 * r)) - r if r else d % 3
         # already sharded axes (normalised) for this value/configuration
         taken = set()
@@ -255,7 +291,7 @@ def run_op(st, op):
     if k == 6 and n.inputs:  # replace input
         i = b % len(n.inputs)
         old = n.inputs[i]
-        pool = [x for nn in nodes for x in nn.outputs if nn is not n] + list(m.graph.inputs)
+        pool = [x for nn in m.graph for x in nn.outputs if nn is not n] + list(m.graph.inputs)  # main-graph values: visible everywhere
         new = pool[c % len(pool)] if (pool and d % 4) else None
         n.replace_input_with(i, new)
         st.affected = st.affected or annotated_node
@@ -287,7 +323,7 @@ def run_op(st, op):
         return f"resize_outputs({n.name},{b % 4})"
     if k == 9 and n.outputs:  # replace all uses
         v = n.outputs[b % len(n.outputs)]
-        pool = [x for nn in nodes for x in nn.outputs if x is not v] + list(m.graph.inputs)
+        pool = [x for nn in m.graph for x in nn.outputs if x is not v] + list(m.graph.inputs)
         r = pool[c % len(pool)]
         users = [u for u, _ in v.uses()]
         try:
@@ -301,7 +337,7 @@ def run_op(st, op):
         return f"replace_all_uses_with({v.name}->{r.name})"
     if k == 10:
         try:
-            m.graph.remove(n, safe=True)
+            n.graph.remove(n, safe=True)
             st.affected = st.affected or annotated_node
         except ValueError:
             pass
@@ -334,7 +370,7 @@ def run_op(st, op):
         st.affected = st.affected or st.annotated
         return "roundtrip"
     if k == 15 and len(nodes) >= 1:  # add a fresh node consuming existing values (gives later ops more room)
-        pool = [x for nn in nodes for x in nn.outputs] + list(m.graph.inputs)
+        pool = [x for nn in m.graph for x in nn.outputs] + list(m.graph.inputs)
         nn = ir.Node("", "Add", [pool[b % len(pool)], pool[c % len(pool)]], num_outputs=1)
         m.graph.append(nn)
         return "append node"
